@@ -12,3 +12,13 @@ Definition c04_model_ok (c : c04_case) : bool :=
 
 Definition c04_spec_violations (cs : list c04_case) : list nat := indices_where (fun c => negb (c04_spec_ok c)) cs.
 Definition c04_model_mismatches (cs : list c04_case) : list nat := indices_where (fun c => negb (c04_model_ok c)) cs.
+
+(* ---- histories that replace the handler while the connection is up (InboundH.v) ---- *)
+From MQ Require Import InboundH.
+Definition c04h_case := (list seg * list (list (nat * in_event)))%type.
+Definition c04h_spec_ok (c : c04h_case) : bool :=
+  let '(segs, obs) := c in list_eqb (list_eqb tagged_eqb) obs (spec_segs os_empty segs).
+Definition c04h_model_ok (c : c04h_case) : bool :=
+  let '(segs, obs) := c in list_eqb (list_eqb tagged_eqb) obs (serve_segs [] segs).
+Definition c04h_spec_violations (cs : list c04h_case) : list nat := indices_where (fun c => negb (c04h_spec_ok c)) cs.
+Definition c04h_model_mismatches (cs : list c04h_case) : list nat := indices_where (fun c => negb (c04h_model_ok c)) cs.
